@@ -58,6 +58,11 @@ var props = map[string]Property{}
 
 func Register(p Property) { props[p.ID()] = p }
 
+var commands = map[string]func([]string) int{}
+
+// RegisterCommand adds a subcommand to verifrun.
+func RegisterCommand(name string, f func([]string) int) { commands[name] = f }
+
 func propHash(id string) uint64 { return verifsim.MixString(7, id) }
 
 func RunSeed(master uint64, prop string, w, i int) uint64 {
@@ -85,6 +90,9 @@ func Main() {
 	case "trace":
 		os.Exit(cmdTrace(os.Args[2:]))
 	default:
+		if f, ok := commands[os.Args[1]]; ok {
+			os.Exit(f(os.Args[2:]))
+		}
 		fmt.Fprintln(os.Stderr, "unknown subcommand")
 		os.Exit(2)
 	}
@@ -295,6 +303,8 @@ func cmdCheck(args []string) int {
 	instr := fs.String("instr", "", "instrumentation summary line")
 	runs := fs.Int("runs", 0, "")
 	noEvidence := fs.Bool("no-evidence", false, "do not write evidence / replays (self tests)")
+	raceBin := fs.String("racebin", "", "binary built with -race (C19 mode 3)")
+	raceBudget := fs.Float64("racebudget", 15, "seconds of free-running execution under the race detector")
 	fs.Parse(args)
 	p := props[*propID]
 	if p == nil {
@@ -368,6 +378,14 @@ func cmdCheck(args []string) int {
 			}
 		}
 	}
+	extra := map[string]any{}
+	if *raceBin != "" {
+		rp, info := runRaceMode(*raceBin, p, *seed, *raceBudget)
+		extra["race_detector_mode"] = info
+		if rp != nil {
+			bySig[rp.Sig] = rp
+		}
+	}
 	wall := time.Since(start).Seconds()
 
 	// known findings
@@ -404,7 +422,7 @@ func cmdCheck(args []string) int {
 			os.WriteFile(path, b, 0o644)
 		}
 		// a violation must reproduce from its replay file in a fresh process
-		if (rp.T != nil || rp.S != nil) && !*noEvidence {
+		if (rp.T != nil || rp.S != nil) && !*noEvidence && rp.Kind != "data-race" {
 			out, _ := exec.Command(self, "replay", "-quiet", "-file", path).CombinedOutput()
 			if !strings.Contains(string(out), "VIOLATION property="+p.ID()) {
 				machinery = append(machinery, fmt.Sprintf("replay of %s did not reproduce: %s", path, lastLines(string(out), 5)))
@@ -422,7 +440,7 @@ func cmdCheck(args []string) int {
 		fmt.Printf("  kind=%s sig=%s\n  %s\n", rp.Kind, rp.Sig, firstLines(rp.Msg, 12))
 	}
 	if !*noEvidence {
-		writeEvidence(p, *verif, *tier, *seed, total, wall, nviol, knownSeen, *instr, *workers, firstSeeds, lastSeeds)
+		writeEvidence(p, *verif, *tier, *seed, total, wall, nviol, knownSeen, *instr, *workers, firstSeeds, lastSeeds, extra)
 	}
 	fmt.Printf("check %s tier=%s seed=%d workers=%d runs=%d distinct_nontrivial=%d violations=%d known=%d wall=%.1fs\n",
 		p.ID(), *tier, *seed, *workers, total.Runs, total.DistinctCount(), nviol, len(knownSeen), wall)
@@ -497,7 +515,57 @@ func huntCrash(self string, p Property, tier string, seed uint64, w int, budget 
 		Note: "fatal runtime errors cannot be recovered in-process; replay by seed (tapes are regenerated from the seed)"}
 }
 
-func writeEvidence(p Property, verif, tier string, seed uint64, st *Stats, wall float64, nviol int, knownSeen []string, instr string, workers int, firstSeeds, lastSeeds []uint64) {
+// runRaceMode executes the free-running mode under the race detector (runtime monitoring,
+// labelled as such in the evidence).  Exit status 66 = the detector reported a data race.
+func runRaceMode(bin string, p Property, seed uint64, budget float64) (*Replay, map[string]any) {
+	cmd := exec.Command(bin, "race-c19", "-seed", strconv.FormatUint(seed, 10), "-budget", fmt.Sprint(budget))
+	cmd.Env = append(os.Environ(), "GORACE=halt_on_error=1 exitcode=66", "GOMAXPROCS="+strconv.Itoa(runtime.NumCPU()))
+	out, err := cmd.CombinedOutput()
+	info := map[string]any{
+		"kind":    "runtime monitoring under the Go race detector (NOT deterministic simulation; interleavings are chosen by the Go scheduler)",
+		"summary": lastLines(string(out), 1),
+		"budget_s": budget,
+	}
+	if err == nil {
+		info["races_reported"] = 0
+		return nil, info
+	}
+	code := -1
+	if ee, ok := err.(*exec.ExitError); ok {
+		code = ee.ExitCode()
+	}
+	text := string(out)
+	if len(text) > 8000 {
+		text = text[:8000]
+	}
+	if code == 66 || strings.Contains(text, "WARNING: DATA RACE") {
+		info["races_reported"] = 1
+		site := raceSite(text)
+		return &Replay{Property: p.ID(), HarnessVersion: HarnessVersion, Tier: "race", Seed: seed, Kind: "data-race", Sig: "data-race:" + site,
+			Msg: "the Go race detector reported a data race between read-only calls on shared inputs:\n" + text, T: []uint32{}, S: []uint32{},
+			Note: fmt.Sprintf("race-detector mode: replay re-runs the free-running workload with this seed for %.0fs under -race; reproduction is likely but not certain", budget)}, info
+	}
+	info["races_reported"] = 0
+	info["failure"] = fmt.Sprintf("exit %d: %s", code, lastLines(text, 6))
+	return &Replay{Property: p.ID(), HarnessVersion: HarnessVersion, Tier: "race", Seed: seed, Kind: "fatal", Sig: "fatal-in-race-mode:" + PanicSite(text),
+		Msg: "the free-running workload died:\n" + text, T: []uint32{}, S: []uint32{}, Note: "race-detector mode"}, info
+}
+
+// raceSite names the first cedar-go function in a race report.
+func raceSite(report string) string {
+	for _, l := range strings.Split(report, "\n") {
+		l = strings.TrimSpace(l)
+		if strings.HasPrefix(l, "github.com/cedar-policy/cedar-go") && !strings.Contains(l, "/verifharness") && !strings.Contains(l, "/internal/verifsim") {
+			if i := strings.LastIndex(l, "("); i > 0 {
+				l = l[:i]
+			}
+			return strings.TrimPrefix(l, "github.com/cedar-policy/cedar-go")
+		}
+	}
+	return "unknown"
+}
+
+func writeEvidence(p Property, verif, tier string, seed uint64, st *Stats, wall float64, nviol int, knownSeen []string, instr string, workers int, firstSeeds, lastSeeds []uint64, extra map[string]any) {
 	real, stub := p.Components()
 	faults := map[string]uint64{}
 	reach := map[string]uint64{}
@@ -553,6 +621,9 @@ func writeEvidence(p Property, verif, tier string, seed uint64, st *Stats, wall 
 		"raw_violating_runs":   st.Violations,
 	}
 	_ = exh
+	for k, v := range extra {
+		cov[k] = v
+	}
 	ev := map[string]any{
 		"property_id": p.ID(),
 		"tier":        tier,
